@@ -596,6 +596,7 @@ type c13History struct {
 	threads [][]c13Op
 	spins   [][]int // busy iterations before each op
 	gosched bool    // yield between ops
+	sched   string  // "tight" | "yield-between-calls" | "random-delays"
 	yield   int     // adapter callback yields
 }
 
@@ -749,7 +750,7 @@ func c13Quiescence(spec *c13Spec, out *c13Outcome, inSync bool) []string {
 type c13Stats struct {
 	total, overlap, nontrivial int
 	maxNodes, sumNodes         int
-	unchecked                  int
+	unchecked, getPolicy       int
 }
 
 func c13NodeBucket(n int) string {
@@ -785,6 +786,9 @@ func c13Judge(c *Ctx, st *c13Stats, id, kind string, spec *c13Spec, init, drift 
 	c.Count(fmt.Sprintf("calls=%d", len(out.calls)))
 	for _, cl := range out.calls {
 		c.Count("op=" + c13KindName[cl.op.kind])
+		if cl.op.kind == c13GetP {
+			st.getPolicy++
+		}
 		if cl.wild {
 			c.Count("getpolicy-result-unchecked(alias-guard)")
 			st.unchecked++
@@ -885,8 +889,11 @@ func c13Gen(c *Ctx, idx int, specs []*c13Spec) *c13History {
 	spec := specs[rng.Intn(len(specs))]
 	h := &c13History{id: fmt.Sprintf("c13.r%d", idx), kind: "random", spec: spec}
 	load := rng.Intn(5) == 0
+	driftW := !load && rng.Intn(8) == 0 // writers over a store that drifted; a SavePolicy resyncs it
 	if load {
 		h.kind = "random-load"
+	} else if driftW {
+		h.kind = "random-drift"
 	}
 	allP, allG, allR := spec.pRules(), spec.gRules(), spec.reserved()
 	nHotP, nHotG := 4, 3
@@ -936,7 +943,7 @@ func c13Gen(c *Ctx, idx int, specs []*c13Spec) *c13History {
 	rng.Shuffle(len(uniq), func(i, j int) { uniq[i], uniq[j] = uniq[j], uniq[i] })
 	h.init = uniq
 
-	if load {
+	if load || driftW {
 		// the store drifted behind the enforcer's back: LoadPolicy really changes the state
 		d := [][]string{}
 		for _, r := range h.init {
@@ -1055,11 +1062,14 @@ func c13Gen(c *Ctx, idx int, specs []*c13Spec) *c13History {
 	if load && !sawLoad {
 		h.threads[0][0] = c13Op{kind: c13Load}
 	}
+	h.sched = "tight"
 	switch rng.Intn(10) {
-	case 0, 1, 2, 3: // tight
+	case 0, 1, 2, 3:
 	case 4, 5, 6:
 		h.gosched = true
+		h.sched = "yield-between-calls"
 	default:
+		h.sched = "random-delays"
 		for g := range h.spins {
 			for k := range h.spins[g] {
 				h.spins[g][k] = rng.Intn(3000)
@@ -1097,22 +1107,33 @@ func init() {
 			"distinct by (stream, model, multiset of call kinds per goroutine, hash of the multiset of overlapping kind pairs)."
 
 		st := &c13Stats{}
+
+		// forced schedules first; their lines are flushed so that they survive a later crash of
+		// the process (a broken lock usually ends in Go's fatal "concurrent map" error)
+		nForced := c13RunForced(c, st)
+		fTotal, fOverlap, fNontriv := st.total, st.overlap, st.nontrivial
+		c.cases.Flush()
+		c.impl.Flush()
+		c.direct.Flush()
+
 		specs := []*c13Spec{c13MakeSpec(false, false), c13MakeSpec(true, false)}
 		for i := 0; i < nRandom; i++ {
 			h := c13Gen(c, i, specs)
 			out := c13RunRandom(h)
-			if h.gosched {
-				c.Count("schedule=yield-between-calls")
-			} else if h.spins[0][0] > 0 || (len(h.spins[0]) > 1 && h.spins[0][1] > 0) {
-				c.Count("schedule=random-delays")
-			} else {
-				c.Count("schedule=tight")
+			c.Count("schedule=" + h.sched)
+			if h.yield > 0 {
+				c.Count("adapter-callbacks-yield")
 			}
-			c13Judge(c, st, h.id, h.kind, h.spec, h.init, h.drift, out, true, nil)
+			// memory and store must agree at the end unless the store had drifted and nothing resynchronised it
+			inSync := h.drift == nil
+			for _, cl := range out.calls {
+				if cl.op.kind == c13Save || cl.op.kind == c13Load {
+					inSync = true
+				}
+			}
+			c13Judge(c, st, h.id, h.kind, h.spec, h.init, h.drift, out, inSync, nil)
 		}
-		randTotal, randOverlap, randNontriv := st.total, st.overlap, st.nontrivial
-
-		nForced := c13RunForced(c, st)
+		randTotal, randOverlap, randNontriv := st.total-fTotal, st.overlap-fOverlap, st.nontrivial-fNontriv
 
 		c13ProbeF19(c)
 		c13ProbeF20(c)
@@ -1122,7 +1143,7 @@ func init() {
 			"exploration, not proof: the lock-protocol theorem is in Coq (Properties/C13.v); this harness samples schedules on the real code",
 			fmt.Sprintf("random histories: %d, with real overlap (two calls of different goroutines overlapping by stamps): %d, non-trivial: %d", randTotal, randOverlap, randNontriv),
 			fmt.Sprintf("forced schedules: %d (adapter / matcher function / logger callbacks)", nForced),
-			fmt.Sprintf("linearization search: max nodes %d, mean nodes %.2f; GetPolicy results left unchecked by the alias guard: %d", st.maxNodes, float64(st.sumNodes)/float64(st.total+1), st.unchecked),
+			fmt.Sprintf("linearization search: max nodes %d, mean nodes %.2f; GetPolicy results left unchecked by the alias guard: %d of %d", st.maxNodes, float64(st.sumNodes)/float64(st.total+1), st.unchecked, st.getPolicy),
 			fmt.Sprintf("GOMAXPROCS=%d wall=%.1fs", runtime.GOMAXPROCS(0), time.Since(t0).Seconds()),
 			"guards: no LoadPolicy together with writers (F19); no pattern model / matching function in the random or forced stream (F20); UpdatePolicy targets from a reserved pool, each at most once (F08); GetPolicy result unchecked when a successful RemovePolicy/UpdatePolicy overlaps it (result aliases internal storage)",
 		)
